@@ -1041,7 +1041,8 @@ def run(ctx):
         "goue = NSE against the group means - tested against exact rationals",
         "independence of the stored representation of index / inputs / monthly Series and of earlier calls on the "
         "same objects (results judged by the same oracle and model; earlier results re-read) - tested"]
-    proved = cm.prove_with_kernels(ctx, ["c_aggregate", "c_flathomogen"])
+    proved = cm.prove_with_kernels(ctx, ["c_aggregate", "c_flathomogen"],
+                                    extractors=["c08", "minic", "minic_chk"])
     cm.use_impl()
     rng = ctx.rng
     terms, replays, results = [], [], []
